@@ -46,6 +46,7 @@ type world struct {
 	sinceRestart bool // a restart happened and no withdrawal was built since
 	nBuilt       int
 	nRejected    int
+	noModel      bool // C20 replay runs: the UTXO model is not maintained
 	hardUsed     int // expensive (search-exhausting) rejections attempted so far
 }
 
@@ -127,6 +128,9 @@ func (w *world) digest() string {
 // compare checks that the stored records equal the model ("a failed or rolled-back withdrawal
 // changes nothing", "selected outputs leave the unspent set and are recorded as spent").
 func (w *world) compare(v e1.View, where string) bool {
+	if w.noModel {
+		return true
+	}
 	for i, k := range w.keys {
 		for _, side := range []struct {
 			prefix string
